@@ -31,6 +31,7 @@ Definition codes (lo hi : Z) : list Z := zrange lo (Z.to_nat (hi - lo + 1)).
 (* CMD hswish_table = 14 : zp_in zp_out out_scale out_shift relu_scale relu_shift qmin qmax *)
 (* CMD requant = 15 : zp_in zp_out mult shift qmin qmax v1 .. vn *)
 (* CMD shl16np = 16 : a offset   (model of shift_left16 on an np.int16 operand, code as it is now; reference as shl16) *)
+(* CMD prelu_table = 17 : zp_in zp_out alpha_zp alpha_code id_scale id_shift alpha_scale alpha_shift qmin qmax *)
 Definition run (cmd : Z) (a : list Z) : list Z :=
   match cmd, a with
   | 1, [x; y] => tri (GenFpMath.saturating_rounding_mul32 x y) (SRDHM32 x y)
@@ -58,6 +59,10 @@ Definition run (cmd : Z) (a : list Z) : list Z :=
   | 15, zi :: zo :: m :: s :: qmin :: qmax :: vs =>
       flat_map (fun v => tri (vela_requant_entry zi zo m s qmin qmax v)
                              (RequantizeRef zi zo m (31 - s) qmin qmax v)) vs
+  | 17, [zi; zo; azp; acode; ids; idsh; als; alsh; qmin; qmax] =>
+      flat_map (fun x => tri (vela_prelu_entry zi zo azp acode ids idsh als alsh qmin qmax x)
+                             (PReluRef zi zo azp acode ids (31 - idsh) als (31 - alsh) qmin qmax x))
+               (codes qmin qmax)
   | 16, [x; o] => tri (np_shift_left16_int16 x o) (SaturatingLeftShift16 x o)
   | _, _ => [-1]
   end.
